@@ -34,6 +34,8 @@ def run(chk, tier):
         cr.check_register_type(chk, prog, cfg, rule="R11.1b")
         cr.check_intern_or_get(chk, prog, cfg, rule="R11.1c")
         cr.check_from_registry(chk, prog, cfg, rule="R11.5")
+        cr.check_builder_ops(chk, prog, cfg, rule="R12.2")
+        cr.check_finish(chk, prog, cfg, rule="R1.6")
         c02.check_config(chk, prog, cfg)
         ci.check_metatype_new(chk, prog, cfg, rule="R5.1")
         ci.check_identities(chk, prog, cfg)
